@@ -195,6 +195,12 @@ class EnsembleOptimizer:
             compute_gradients=return_gradients,
         )
 
+        # Every function evaluation counts towards the maximum, also those that
+        # were needed for a gradient and are not returned to the optimizer:
+        self._completed_functions += sum(
+            isinstance(item, FunctionResults) for item in results
+        )
+
         functions = np.array([])
         if return_functions:
             # Functions might be parallelized hence we need potentially to
@@ -204,7 +210,6 @@ class EnsembleOptimizer:
                 for item in results
                 if isinstance(item, FunctionResults)
             ]
-            self._completed_functions += len(functions_list)
             functions = (
                 np.vstack(functions_list) if variables.ndim > 1 else functions_list[0]
             )
